@@ -36,7 +36,8 @@ inductive Outcome
   | depth                     -- the depth budget of the generated bodies ran out
   | keyError
   | cycle
-  | unsupported               -- value-dependent rank (evaluated by Layer E)
+  | raised                    -- an exception escaped from a generated value check / a user condition
+  | unsupported
 deriving DecidableEq, Repr, Inhabited
 
 /-- per method entered: its id, the forwarded positional values, the forwarded keyword values -/
@@ -164,7 +165,20 @@ def runEntry : Nat → Fn → Entry → Dispatch → Nat → Fn × Outcome × Tr
           | .callNext srcs => deleg (some (codeOfHandle df id)) (evalArgs x.passPos srcs) false
           | .recurse srcs => deleg none (evalArgs x.passPos srcs) false
           | .next srcs => deleg (some (codeOfHandle df id)) (evalArgs x.passPos srcs) true
-    | _ => (fn, .unsupported, [], 0)
+    | .dep hs next =>
+      -- the generated dependent dispatcher of this rank (Layer E), called with the forwarded arguments
+      let handlers : List DHandler := hs.map (fun h => (h, ((fn.mm.meths.find? (fun m => m.id == h)).map (·.params)).getD []))
+      let args : List (Slot × DVal) :=
+        (x.passPos.zipIdx.map (fun (a, i) => (Slot.pos i, a.val))) ++ (x.passKw.map (fun (n, a) => (Slot.kw n, a.val)))
+      match dispatch cfg.dworld (x.key.map (·.1)) handlers args with
+      | .handler h => runEntry f fn (.meth h) x depth
+      | .fallthrough =>
+        (match next with
+         | .noNext => (fn, .noMethod, [], 0)
+         | e' => runEntry f fn e' x depth)
+      | .ambiguous => (fn, .ambiguous hs, [], 0)
+      | .raised => (fn, .raised, [], 0)
+    | .noNext => (fn, .noMethod, [], 0)
 
 /-- a call of the function object: lazy build, entry point, lookup, method; the last component counts the
     lookups that had to run `resolve` -/
